@@ -1194,91 +1194,6 @@ theorem apply_block_at (C : Crypto) (hC : HashWF C) (bs : Array Bytes) (m : Nat)
   rw [honestBlock_extract C bs m c d held h i hi] at r1 r2
   exact ⟨r1, (repr_extract C bs m h.le h.small _ _ _).mp r2⟩
 
-/-- what the replica does next: upgrade to the writer's current length `n`, or fetch block `i` -/
-inductive Act
-  | grow (n : Nat) (us : List (Nat × Nat)) (sig : Bytes)
-  | fetch (i : Nat)
-
-def actProof (C : Crypto) (bs : Array Bytes) (c : Core) (d : Disk) : Act → Proof
-  | .grow n us sig => honestGrowth C bs c.tree.fork c.tree.length n us sig
-  | .fetch i => honestBlock C bs c d i
-
-def play (C : Crypto) (bs : Array Bytes) : Core × Disk → List Act → Core × Disk
-  | s, [] => s
-  | (c, d), a :: r =>
-    play C bs ((c.verifyAndApply C d (actProof C bs c d a)).core, d.applyAll (c.verifyAndApply C d (actProof C bs c d a)).journal) r
-
-def playResults (C : Crypto) (bs : Array Bytes) : Core × Disk → List Act → List (R Bool)
-  | _, [] => []
-  | (c, d), a :: r =>
-    (c.verifyAndApply C d (actProof C bs c d a)).result ::
-      playResults C bs ((c.verifyAndApply C d (actProof C bs c d a)).core, d.applyAll (c.verifyAndApply C d (actProof C bs c d a)).journal) r
-
-/-- the acts are honest: lengths only grow and stay inside the log, every upgrade carries an honest position list and
-    a signature of the writer for that length, every block index lies below the replica's current length -/
-def OkActs (C : Crypto) (bs : Array Bytes) (pk : Bytes) (fork : Nat) : Nat → List Act → Prop
-  | _, [] => True
-  | m, .grow n us sig :: r => m < n ∧ n ≤ bs.size ∧ Up m 0 (rootsStack n).reverse us ∧ sig.length = 64
-      ∧ C.verify pk (signableAt C bs n fork) sig = true ∧ OkActs C bs pk fork n r
-  | m, .fetch i :: r => i < m ∧ OkActs C bs pk fork m r
-
-def lenAfter : Nat → List Act → Nat
-  | m, [] => m
-  | _, .grow n _ _ :: r => lenAfter n r
-  | m, .fetch _ :: r => lenAfter m r
-
-def fetched : List Act → Nat → Bool
-  | [], _ => false
-  | .grow _ _ _ :: r, j => fetched r j
-  | .fetch i :: r, j => j == i || fetched r j
-
-theorem play_repr (C : Crypto) (hC : HashWF C) (bs : Array Bytes) (pk : Bytes) (fork : Nat) :
-    ∀ (acts : List Act) (m : Nat) (c : Core) (d : Disk) (held : Nat → Bool), RepRAt C bs m c d held → 0 < m →
-      c.publicKey = pk → c.tree.fork = fork → OkActs C bs pk fork m acts →
-      RepRAt C bs (lenAfter m acts) (play C bs (c, d) acts).1 (play C bs (c, d) acts).2 (fun j => held j || fetched acts j)
-        ∧ playResults C bs (c, d) acts = acts.map (fun _ => .ok true) := by
-  intro acts
-  induction acts with
-  | nil =>
-    intro m c d held h _ _ _ _
-    refine ⟨?_, rfl⟩
-    have : (fun j => held j || fetched [] j) = held := by funext j; simp [fetched]
-    rw [this]; exact h
-  | cons a r ih =>
-    intro m c d held h hm0 hpk hfk hok
-    cases a with
-    | grow n us sig =>
-      obtain ⟨o1, o2, o3, o4, o5, o6⟩ := hok
-      have hlen : c.tree.length = m := h.closed.sparse.length
-      obtain ⟨r1, r2, r3, r4⟩ := apply_growth C hC bs m n c d held h hm0 o1 o2 us o3 sig o4 (by rw [hpk, hfk]; exact o5)
-      have hact : actProof C bs c d (.grow n us sig) = honestGrowth C bs c.tree.fork m n us sig := by simp [actProof, hlen]
-      rw [← hact] at r1 r2 r3 r4
-      obtain ⟨q1, q2⟩ := ih n (c.verifyAndApply C d (actProof C bs c d (.grow n us sig))).core
-        (d.applyAll (c.verifyAndApply C d (actProof C bs c d (.grow n us sig))).journal) held r2 (by omega) (by rw [r4, hpk]) (by rw [r3, hfk]) o6
-      refine ⟨?_, by simp only [playResults, r1, List.map_cons]; rw [q2]⟩
-      simpa [play, lenAfter, fetched] using q1
-    | fetch i =>
-      obtain ⟨o1, o2⟩ := hok
-      obtain ⟨r1, r2⟩ := apply_block_at C hC bs m c d held h i o1
-      have hshape := (repr_extract C bs m h.le h.small c d held).mpr h
-      -- the block answer leaves key and fork alone
-      have hkeep : (c.verifyAndApply C d (honestBlock C bs c d i)).core.publicKey = c.publicKey
-          ∧ (c.verifyAndApply C d (honestBlock C bs c d i)).core.tree.fork = c.tree.fork := by
-        rw [← honestBlock_extract C bs m c d held h i o1,
-          apply_block_shape C (bs.extract 0 m) c d held hshape i (by rw [size_extract bs m h.le]; exact o1)]
-        simp only []
-        rw [LiveRefine.maybeFlush_eq]
-        split
-        · exact ⟨rfl, rfl⟩
-        · exact ⟨rfl, rfl⟩
-      obtain ⟨q1, q2⟩ := ih m (c.verifyAndApply C d (honestBlock C bs c d i)).core
-        (d.applyAll (c.verifyAndApply C d (honestBlock C bs c d i)).journal) _ r2 hm0 (by rw [hkeep.1, hpk]) (by rw [hkeep.2, hfk]) o2
-      refine ⟨?_, by simp only [playResults, actProof, r1, List.map_cons]; rw [q2]⟩
-      have : (fun j => held j || fetched (Act.fetch i :: r) j) = (fun j => (held j || j == i) || fetched r j) := by
-        funext j; simp [fetched, Bool.or_assoc]
-      rw [this]
-      simpa [play, lenAfter, actProof] using q1
-
 /-! ### reading back, and first contact at a prefix -/
 
 theorem get_held_at (C : Crypto) (bs : Array Bytes) (m : Nat) (c : Core) (d : Disk) (held : Nat → Bool) (h : RepRAt C bs m c d held)
